@@ -41,7 +41,7 @@ def conditions(prefix, nmax):
 def run_one(job):
     path, fn, line, per_cond, wall = job
     env = dict(os.environ)
-    env["PYTHONPATH"] = f"{ROOT}:/repo/src"
+    env["PYTHONPATH"] = f"{ROOT}:{common.REPO}/src"
     t0 = time.time()
     try:
         p = subprocess.run([str(ROOT / ".venv/bin/crosshair"), "check", "--report_all", "--per_condition_timeout", str(per_cond), f"{path}:{line + 2}"], capture_output=True, text=True, timeout=wall, env=env)
@@ -66,7 +66,7 @@ def replay_cex(path, msg):
     fn, args = m.group(1), m.group(2)
     code = f"import importlib.util\nspec=importlib.util.spec_from_file_location('h', {path!r})\nmod=importlib.util.module_from_spec(spec)\nspec.loader.exec_module(mod)\ntry:\n    print('RESULT', mod.{fn}({args}))\nexcept Exception as e:\n    print('RESULT EXC', type(e).__name__, e)\n"
     env = dict(os.environ)
-    env["PYTHONPATH"] = f"{ROOT}:/repo/src"
+    env["PYTHONPATH"] = f"{ROOT}:{common.REPO}/src"
     p = subprocess.run(["/venv/bin/python", "-c", code], capture_output=True, text=True, env=env, timeout=120)
     if "RESULT False" in p.stdout or "RESULT EXC" in p.stdout:
         return True, p.stdout.strip()[-200:]
